@@ -136,7 +136,11 @@ def run_case(case: dict[str, Any]) -> dict[str, Any]:  # noqa: C901, PLR0912, PL
         except (ValidationError, ValueError):
             return {"rejected": True}
         check(False, "invalid-accepted", f"inconsistent configuration accepted ({case['invalid']})", case)  # noqa: FBT003
-    cfg = EnOptConfig.model_validate(cfgd, context=ctx)
+    try:
+        cfg = EnOptConfig.model_validate(cfgd, context=ctx)
+    except (ValidationError, ValueError) as exc:
+        check(False, "valid-rejected", f"a consistent configuration was rejected: {str(exc).splitlines()[1 if len(str(exc).splitlines()) > 1 else 0][:200]}", case)  # noqa: FBT003
+        raise
     # ---- canonical form
     v = cfgd["variables"]
     vs = np.ones(n) if ctx is None or ctx.variables is None else np.array(case["vscale"], dtype=np.float64)
@@ -393,7 +397,7 @@ def hypothesis_shard(item: dict[str, Any]) -> Collector:
                                 "voff": [draw(st.sampled_from([0.0, 0.25])) for _ in range(n)],
                                 "oscale": [draw(st.sampled_from([2.0, 0.5])) for _ in range(k_n)],
                                 "cscale": [draw(st.sampled_from([4.0, 0.25])) for _ in range(c_n)]}
-        inv = draw(st.integers(0, 19))
+        inv = draw(st.integers(0, 23))
         if inv == 0:
             case["invalid"] = "variable lower bound above upper bound"
             config["variables"]["lower_bounds"] = [9.0] * n
@@ -438,6 +442,15 @@ def hypothesis_shard(item: dict[str, Any]) -> Collector:
         elif inv == 12 and n > 1:  # noqa: PLR2004
             case["invalid"] = "sampler indices of wrong length"
             config["gradient"]["samplers"] = [0] * (n + 1)
+        elif inv == 13:  # noqa: PLR2004
+            case["invalid"] = "realization filter index beyond the configured filters"
+            objectives["realization_filters"] = [f_n] * k_n
+        elif inv == 14:  # noqa: PLR2004
+            case["invalid"] = "function estimator index that does not exist"
+            objectives["function_estimators"] = [draw(st.sampled_from([e_n, -1]))] * k_n
+        elif inv == 15:  # noqa: PLR2004
+            case["invalid"] = "sampler index beyond the configured samplers"
+            config["gradient"]["samplers"] = [len(config.get("samplers", [0]))] * n
         return case
 
     def body(case: dict[str, Any]) -> None:
